@@ -12,11 +12,13 @@ from gram import Bin, BoolOp, Call, Cmp, Eq, IfE, Neg, Not, Num, Program, Var, V
 ATOMS_QUICK: List[Any] = [
     Var('X'), Var('X', off=-1), Var('Z', off=1), Var('Y', off=-1), Var('Y'),
     Var('alpha_1', 'p'), Var('e', 'e'), Num('2'), Num('0.5'),
+    Var('beta', 'p', off=-2), Var('u', 'e', off=2),   # the deepest lag / furthest lead may sit on a parameter / error only
     Var('_a1', off=-1),   # special name shapes are crossed with a non-zero offset (seeded change C01_mut1)
 ]
 ATOMS_FULL: List[Any] = ATOMS_QUICK + [
     Var('_a1'), Var('is_open'), Var('Pin', off=-2), Var('not_X'), Var('exp'), Var('log', off=-1), Var('max'),
     Var('X', off=-12), Var('Z', off=2), Var('beta', 'p', off=-1), Var('e', 'e', off=1), Num('1'), Num('10.25'),
+    Var('type'), Var('match', off=-1), Var('_'),
     Var('x'), Var('t1'), Var('_p', 'p', off=-1), Var('_e', 'e', off=1), Var('is_open', off=1), Var('exp', off=-1),
 ]
 BINOPS = ['+', '-', '*', '/', '**']
@@ -104,9 +106,18 @@ FIXED_PROGRAMS: List[Program] = [
     (Eq(Var('Y'), Call('np.sqrt', (Call('abs', (Bin('-', Var('X'), Var('Z', off=-3)),)),))),),
     # the same equation twice is one equation
     (Eq(Var('Y'), Bin('+', Var('X'), Num('1'))), Eq(Var('Y'), Bin('+', Var('X'), Num('1')))),
+    # soft keywords and the bare underscore are ordinary identifiers (seeded change C01_r2mut2)
+    (Eq(Var('Y'), Bin('+', Var('match', off=-1), Var('type'))), Eq(Var('case'), Bin('*', Var('_'), Num('2')))),
     # long right-hand side
     (Eq(Var('S'), Bin('+', Bin('+', Bin('+', Var('a'), Var('b', off=-1)), Bin('*', Var('c', off=2), Var('k', 'p'))),
                       Bin('/', Var('d'), Bin('-', Var('f', off=-4), Num('3'))))),),
+]
+
+VERBATIM_PROGRAMS: List[Program] = [
+    # partial verbatim fragments are inserted untouched, inner spacing included (seeded change C01_r2mut1)
+    (Eq(Var('Y'), Bin('*', Var('X'), Verb("len('a  b')", expr=Num('4')))),),
+    (Eq(Var('Y'), Bin('+', Var('Z'), Bin('*', Verb('self._X[t]', expr=Var('X')), Num('2')))), Eq(Var('W'), Var('X'))),
+    (Eq(Var('Y'), Bin('-', Verb('max( self._X[t] ,  0.5 )', expr=Call('max', (Var('X'), Num('0.5')))), Var('Z'))), Eq(Var('W'), Var('X', off=-1))),
 ]
 
 ILLEGAL_PROGRAMS: List[Program] = [
